@@ -189,8 +189,11 @@ func runParent() int {
 		for _, m := range r.incon {
 			run.Inconclusive(m)
 		}
-		if r.sample != nil && r.from == 0 {
-			samples[r.entry+"/"+r.proto] = r.sample
+		if r.sample != nil {
+			k := r.entry + "/" + r.proto
+			if cur, ok := samples[k]; !ok || r.sample.idx < cur.idx {
+				samples[k] = r.sample
+			}
 		}
 	}
 	run.Set("per_entry_point", stats)
@@ -518,9 +521,22 @@ func panicSite(stderr string) (kind, msg, fn, where, stack string) {
 	return
 }
 
+// idleStates: where the library's own goroutines legitimately wait for work
+// or for their caller (not evidence of a wedge).
+var idleStates = map[string]string{
+	"(*fNatsServer).worker":                        "[chan receive",
+	"(*fNatsServer).Serve":                         "[chan receive",
+	"(*fNatsSubscriberTransport).worker":           "[select",
+	"(*fStompSubscriberTransport).processMessages": "[select",
+	"(*fAdapterTransport).Request":                 "[select",
+	"(*fAdapterTransport).Oneway":                  "[select",
+	"(*fNatsTransport).Request":                    "[select",
+	"(*monitorRunner).run":                         "[chan receive",
+}
+
 // blockedSite inspects a stall dump: a goroutine whose top user frame is in
-// the library and which waits to send on a channel or to take a lock is parked
-// on something its peer cannot release by sending more bytes.
+// the library and which is parked on a channel or a lock anywhere but at its
+// idle point waits for something its peer cannot release by sending bytes.
 func blockedSite(stderr string) (fn, where, state string) {
 	i := strings.Index(stderr, "C05-STALL-DUMP-BEGIN")
 	if i < 0 {
@@ -538,7 +554,13 @@ func blockedSite(stderr string) (fn, where, state string) {
 		if k := strings.Index(st, "["); k >= 0 {
 			st = strings.TrimSuffix(strings.TrimSpace(st[k:]), ":")
 		}
-		if !(strings.HasPrefix(st, "[chan send") || strings.HasPrefix(st, "[semacquire") || strings.HasPrefix(st, "[sync.Mutex") || strings.HasPrefix(st, "[sync.RWMutex")) {
+		parked := false
+		for _, p := range []string{"[chan send", "[chan receive", "[select", "[semacquire", "[sync."} {
+			if strings.HasPrefix(st, p) {
+				parked = true
+			}
+		}
+		if !parked {
 			continue
 		}
 		for k := 1; k < len(ls); k++ {
@@ -554,13 +576,17 @@ func blockedSite(stderr string) (fn, where, state string) {
 				continue
 			}
 			if strings.HasPrefix(name, frugalPkg) {
+				fn := strings.TrimPrefix(name, frugalPkg)
+				if idleStates[fn] != "" && strings.HasPrefix(st, idleStates[fn]) {
+					break // where this goroutine waits for work
+				}
 				loc := ""
 				if k+1 < len(ls) {
 					if m := lineRe.FindStringSubmatch(ls[k+1]); m != nil {
 						loc = filepath.Base(m[1]) + ":" + m[2]
 					}
 				}
-				return strings.TrimPrefix(name, frugalPkg), loc, st
+				return fn, loc, st
 			}
 			break
 		}
@@ -595,7 +621,7 @@ func classify(j job, l *logged, exit int, timedOut bool, tail, stderr string) cr
 		c.Sig = fmt.Sprintf("C05:stopped-serving:%s:%s", j.entry, fs[3])
 	case exit == exitWrong && len(fs) >= 3:
 		c.Kind, c.Msg = "wrong", strings.Join(fs[2:], " ")
-		c.Sig = fmt.Sprintf("C05:canary-failed:%s:%s", j.entry, l.class)
+		c.Sig = fmt.Sprintf("C05:canary-failed:%s", j.entry)
 	case exit == exitStall || timedOut:
 		note := ""
 		if len(fs) >= 4 {
@@ -607,7 +633,7 @@ func classify(j job, l *logged, exit int, timedOut bool, tail, stderr string) cr
 			c.Sig = fmt.Sprintf("C05:blocked:%s:%s", j.entry, fn)
 		} else {
 			c.Kind = "stall"
-			c.Msg = "canary made no progress but no goroutine is parked in the library on a channel send or a lock: " + note
+			c.Msg = "canary made no progress but no goroutine is parked inside the library away from its idle point: " + note
 			c.Sig = fmt.Sprintf("C05:stall:%s:%s", j.entry, l.class)
 		}
 	default:
